@@ -39,6 +39,16 @@ Two further alphabets are crossed with the structures (same oracle clauses, noth
     pair (the logit of clause (a) included), to every public entry point, and to the generating function and the terms of
     clause (e).  Whatever a model function decides from the type of the conditions when the expression is built must
     not change the model.
+  * the utilities of alternatives that are NOT available (parts na*): in data the attributes of an unavailable alternative
+    carry a "not applicable" code, so that its utility is an arbitrary, typically extreme number of either sign (NA_CODES:
+    two codes per seed, |code| between 750 and 1e6, far outside the range where exp() is finite; never 99999, the engine's
+    own missing-value code).  No formula of the family contains such a utility.  For every availability pattern with an
+    unavailable alternative the codes are placed on each single unavailable alternative and on all of them together
+    (signs alternating), crossed with ordinary utility vectors of the available alternatives, and the table is put through
+    every clause: (a)-(d) for every nested structure (listing order of the nest members reversed, as everywhere), every
+    public entry point, the genuinely cross-nested structures of (c), (d), and clause (e) - generating function, terms and
+    closed form (the reference model only ever reads utilities of available alternatives).  Thorough: also with the
+    availability conditions written in AVFORMS and the parameters moved away from their initial values.
 """
 from __future__ import annotations
 
@@ -57,7 +67,7 @@ LEVEL = 'exploration'
 TECHNIQUE = ('bounded exhaustive enumeration of nest structures x parameter grids x availability patterns x utility grids x '
              'every public entry point of the family (old names included) x parameters evaluated at / away from their initial '
              'values x the availability conditions written as data columns / None / Python numbers / Numeric objects / numbers '
-             'and columns / expressions; paired evaluation of the model functions by the real engine (reductions, scale one, tuple syntax) and real '
+             'and columns / expressions x utilities of unavailable alternatives carrying extreme not-applicable codes; paired evaluation of the model functions by the real engine (reductions, scale one, tuple syntax) and real '
              'differentiation of the published generating function by the engine gradient, against closed forms')
 RULE = ('one case = one (oracle clause, pair of model functions, nest structure, parameter assignment, availability pattern); '
         'every utility vector x chosen alternative under it is one compared value vector (counted in evaluations). '
@@ -67,7 +77,9 @@ RULE = ('one case = one (oracle clause, pair of model functions, nest structure,
         'through mev and logmev) and the structure records whether the parameters are free parameters moved away from '
         'their initial values (and with which initial values) and, when the availability conditions are not data columns, '
         'the form they are written in (AVFORMS: int, float, bool, Numeric, two mixtures of numbers and columns, '
-        'expressions). distinct = distinct such keys.')
+        'expressions) and whether the utilities of the unavailable alternatives carry not-applicable codes (NA_CODES: each '
+        'single unavailable alternative / all of them x two codes of opposite sign x utility vectors of the others are the '
+        'value vectors of one case). distinct = distinct such keys.')
 ASSUMPTIONS = [
     'grids of the per-seed alphabets of C05 (utilities, nest parameters, scale, alpha splits); J <= 3 quick, J <= 4 thorough; '
     'cross-nested structures: 2 nests (J <= 3 quick, J <= 4 thorough) or 3 nests (J = 2 quick, J <= 3 thorough), reduced '
@@ -103,6 +115,18 @@ ASSUMPTIONS = [
     'pattern; thorough: every form), thorough also 3 nests x J = 2 and 2 nests x J = 3 with one alpha split and one form '
     'per (structure, pattern).  Derivative clause (e): every structure and pattern, J <= 3 quick / J <= 4 thorough, two '
     'rotating forms (thorough J <= 3: every form), names of GEN_ENTRIES rotating',
+    'not-applicable codes (NA_CODES: two values of opposite sign per seed, 750 <= |code| <= 1e6; 99999 excluded - the engine '
+    'refuses a Variable holding its missing-value code) only ever on UNAVAILABLE alternatives: every availability pattern with '
+    'an unavailable alternative x placement (each single unavailable alternative; all together, signs alternating) x code x '
+    '4 utility vectors of the other alternatives.  Clauses (a)-(d): every nested structure, J <= 3 quick / J <= 4 thorough, '
+    'nest parameters all ones and one rotating assignment without ones (thorough J <= 3: full grid, scaled versions, and one '
+    'moved-parameter mode rotating).  Clause (e): every structure x the same assignments x the default names and one rotating '
+    'combination of GEN_ENTRIES.  Entry points: quick - J = 2 every structure, J = 3 every fifth structure (rotating with the '
+    'seed) plus the single nest holding everything, one of the two assignments alternating; thorough - J <= 3 every structure '
+    'and assignment, J = 4 every fourth structure.  Genuinely cross-nested structures (c), (d): the families of the '
+    'availability-form part (quick 2 nests x J = 2).  Thorough, J <= 3: crossed with the availability forms (one table per '
+    'pattern, two rotating forms for (a)-(d) with J = 2, one above; one form for (e)).  Extreme utilities of AVAILABLE '
+    'alternatives are not in this alphabet (the common levels of C05 cover large utilities inside the range of exp)',
 ]
 ANCHOR_FILES = ['src/biogeme/models/nested.py', 'src/biogeme/models/cnl.py', 'src/biogeme/models/mev.py',
                 'src/biogeme/models/logit.py', 'src/biogeme/nests.py']
